@@ -248,7 +248,7 @@ def judge_v1(part, tok_name, cls, variant="std", seq_len=3):
 
 
 # =========================================================== v2 ==============================================================
-V2_KINDS = ["balanced", "mild", "strong", "strong_short"]
+V2_KINDS = ["balanced", "mild", "strong", "strong_short", "single-token"]
 V2_IMPACTS = ["0", "small", "large"]
 V2_DEPOSITS = {  # (long USD, short USD)
     "long-small": (20_000, 0), "short-small": (0, 20_000), "both-small": (15_000, 9_000),
@@ -262,12 +262,24 @@ def v2_ctx(kind, impact):
     from mc.worlds import gmx
     from mc.worlds.kit import Ctx
 
-    data = gmx.v2_frame(3, kind, impact)
-    m = gmx.make_v2(data)
-    prices = gmx.v2_prices(data, m)
+    single = kind == "single-token"  # a pool whose long and short token are the same token (exists in GMX v2): both legs are paid in that token
+    data = gmx.v2_frame(3, "mild" if single else kind, impact, single)
+    m = gmx.make_v2(data, single_token=single)
+    if single:
+        import pandas as pd
+
+        prices = pd.DataFrame(index=data.index, data={"WETH": [Decimal(str(x)) for x in data["longPrice"]]})
+        prices["USD"] = Decimal(1)
+    else:
+        prices = gmx.v2_prices(data, m)
     ad = gmx.Gmx2Adapter(m, data)
-    ctx = Ctx("gmx2", prices, USD, [ad], [(gmx.V2_LONG, 10**6), (gmx.V2_SHORT, 10**9)], data.index)
+    ctx = Ctx("gmx2", prices, USD, [ad], [(gmx.V2_LONG, 10**6)] + ([] if single else [(gmx.V2_SHORT, 10**9)]), data.index)
     ctx.begin_bar(1)
+    # the fee factors are per-pool configuration; with the "small" impact pool the pool charges other factors than the defaults (all four different)
+    if impact == "small":
+        gmx.set_v2_fees(m, dep_pos=0.0004, dep_neg=0.0009, wd_pos=0.0011, wd_neg=0.0025)
+    else:
+        gmx.set_v2_fees(m)
     return ctx, gmx
 
 
@@ -297,7 +309,12 @@ def judge_v2(part, kind, impact):
             part.violation("C17|v2|mint-amount", "GM minted differs from pool value per share with deposit fee factors and capped price impact", case,
                            {"got": res.gm_amount, "rule": want_gm, "price_impact_usd": res.price_impact_usd})
         w1 = ctx.wallet()
-        if not closef(float(w0["WETH"] - w1["WETH"]), la, 1e-12) or not closef(float(w0["USDC"] - w1["USDC"]), sa, 1e-12):
+        single = kind == "single-token"
+        if single:
+            if not closef(float(w0["WETH"] - w1["WETH"]), la + sa, 1e-12):
+                part.violation("C17|v2|deposit-bookkeeping", "wallet not debited by the deposited amounts (both legs of a single-token pool are paid in the one token)", case,
+                               {"debited": float(w0["WETH"] - w1["WETH"]), "deposited": la + sa})
+        elif not closef(float(w0["WETH"] - w1["WETH"]), la, 1e-12) or not closef(float(w0["USDC"] - w1["USDC"]), sa, 1e-12):
             part.violation("C17|v2|deposit-bookkeeping", "wallet not debited by the deposited amounts", case)
         imp_cap = row["impactPoolAmount"]
         if res.price_impact_usd > 0:
@@ -318,14 +335,17 @@ def judge_v2(part, kind, impact):
                 part.violation("C17|v2|redeem-amount", "tokens redeemed differ from GM x pool value per share split by the pool's token values, less the "
                                "withdrawal fee", dict(case, withdraw=wname), {"got": [out.long_amount, out.short_amount], "rule": [wl, ws]})
             w2 = ctx.wallet()
-            if not closef(float(w2["WETH"] - w1["WETH"]), wl, 1e-9) or not closef(float(w2["USDC"] - w1["USDC"]), ws, 1e-9):
+            if single:
+                if not closef(float(w2["WETH"] - w1["WETH"]), wl + ws, 1e-9):
+                    part.violation("C17|v2|withdraw-bookkeeping", "wallet not credited with the redeemed amounts", dict(case, withdraw=wname))
+            elif not closef(float(w2["WETH"] - w1["WETH"]), wl, 1e-9) or not closef(float(w2["USDC"] - w1["USDC"]), ws, 1e-9):
                 part.violation("C17|v2|withdraw-bookkeeping", "wallet not credited with the redeemed amounts", dict(case, withdraw=wname))
             if wname == "all":
                 part.count("v2_round_trips")
                 v_in = lu + su
                 v_out = out.long_amount * row["longPrice"] + out.short_amount * row["shortPrice"]
                 dep_fee = res.fee_usd
-                if granted <= dep_fee + 0.0007 * v_out:
+                if granted <= dep_fee + gmx.V2_FEES["wd"] * v_out:
                     part.count("v2_round_trips_judged")
                     if v_out > v_in * (1 + 1e-12):
                         part.violation("C17|v2|round-trip-profit", "depositing and immediately withdrawing returned more value than was paid although the "
